@@ -292,6 +292,50 @@ def record(tabs, work, seed, c09=False, name="tab", rows=None, nsamples=2, max_e
     return files, total
 
 
+ORDER_SPELL = {
+    "2": ["AV", "AC", "Au", "C", "I", "A", "E", "RL", "RC", "CDP", "TD", "CR", "IR", "AR"],
+    "3": ["AV", "AC", "PR", "UI", "S", "C", "I", "A", "E", "RL", "RC", "CR", "IR", "AR", "MAV", "MAC", "MPR", "MUI", "MS", "MC", "MI", "MA"],
+    "4": ["AV", "AC", "AT", "PR", "UI", "VC", "VI", "VA", "SC", "SI", "SA", "E", "CR", "IR", "AR", "MAV", "MAC", "MAT", "MPR", "MUI", "MVC", "MVI",
+          "MVA", "MSC", "MSI", "MSA", "S", "AU", "R", "V", "RE", "U"]}
+
+
+def vector_at(h, o, j):
+    """the vector string of entry j (0-based inner index) of row o of table h"""
+    g = dict(h["fixed"])
+    for d, dm in enumerate(h["outer"]):
+        g.update(dm["opts"][o[d] - 1])
+    rad = [len(d["opts"]) for d in h["inner"]]
+    idx = []
+    for r in reversed(rad):
+        idx.append(j % r)
+        j //= r
+    idx.reverse()
+    for d, dm in enumerate(h["inner"]):
+        g.update(dm["opts"][idx[d]])
+    pre = "" if h["ver"] == "2" else ("CVSS:3.%d/" % h["minor"] if h["ver"] == "3" else "CVSS:4.0/")
+    return pre + "/".join("%s:%s" % (m, g[m]) for m in ORDER_SPELL[h["ver"]] if m in g)
+
+
+def score_representatives(tabs, work, seed, name="rep"):
+    """one vector per distinct observed score value of every (version, slot), found by recording the tables: a corpus that is
+    stratified by what the library *outputs* (every score value incl. any out-of-range one, every band edge)"""
+    files, total = record(tabs, work, seed, name=name, nsamples=0, max_entries_per_file=10 ** 12)
+    reps = {}
+    for path, nr, nent in files:
+        d = json.load(open(path))
+        for row in d["rows"]:
+            h = tabs[row["t"] - 1]
+            sl = h["slots"]
+            obs = row["obs"]
+            for k in range(0, len(obs), sl):
+                for s in range(sl):
+                    key = (h["ver"], s, obs[k + s])
+                    if key not in reps:
+                        reps[key] = (h["ver"], vector_at(h, row["o"], k // sl))
+        os.remove(path)
+    return sorted(set(reps.values())), total
+
+
 def spec_rows(tabs, work, name="spec"):
     """Trace file for Mode = "spec": rows without observations."""
     rows = [{"t": r[0], "o": r[1], "obs": [], "samples": []} for t, h in enumerate(tabs, 1) for r in rows_of(t, h)]
